@@ -1,15 +1,11 @@
-"""Registry of claimed checks -> MANIFEST.json (bin/mkmanifest).  One entry per property claimed."""
-CLAIMS = {
- "C28": dict(
-   category="model_checking", design_ref="DESIGN.md §8 C28",
-   text=("TLC model-checks spec/SSHNegotiate.tla: the transcription of findCommon/findAgreedAlgorithms equals the declarative "
-         "RFC 4253 7.1 rule and the client/server views mirror each other, exhaustively for all list pairs of length<=3 per slot, "
-         "cipher x MAC interplay with AEAD names and whole-message products; every enumerated negotiation is then replayed on the "
-         "real findAgreedAlgorithms for both roles (binding R) and compared with the model's prediction."),
-   note=("Bounded lists (<=3 names, small alphabets incl. names unknown to the peer); names are opaque strings as in the code; "
-         "trusted: TLC, the verif hook passing KEXINITs through Marshal/Unmarshal unchanged."),
-   technique="TLA+ spec + TLC exhaustive enumeration; model-to-code replay of every enumerated negotiation"),
-}
+"""Registry of claimed checks -> MANIFEST.json (bin/mkmanifest).
+A property is claimed iff checks/<ID>.py and checks/<ID>.claim.json both exist.  The claim file has
+category (level), text, note (trusted base / assumptions), technique, design_ref."""
+import glob, json, os
+HERE = os.path.dirname(os.path.abspath(__file__))
+CLAIMS = {}
+for f in sorted(glob.glob(os.path.join(HERE, "C*.claim.json"))):
+    CLAIMS[os.path.basename(f).split(".")[0]] = json.load(open(f))
 
 NOT_APPLICABLE = {
  "C15": "Argon2 byte-equality is a memory-hard numeric function with no state machine or decision structure for a TLA+ model to add to; an executable TLA+ transcription is impractical (>=10^6 limb ops per evaluation). See DESIGN.md §8 C15.",
